@@ -784,6 +784,115 @@ impl History {
     // --------------------------------------------------------------------------------------------
     // C20
 
+    /// Two ids; a search on one of them, then exactly M - 1 calls that change nothing (M = 2^16 mostly; 2^8, 2^17), then one
+    /// add that changes the answer, then the same search again. Whatever the registry counts in a narrow integer between two
+    /// searches (calls on the id, calls on any id, searches, reads) comes back to its old value at exactly that point.
+    fn registry_long_session(&self, cx: &mut Cx, lang: &'static str) {
+        let a = (cx.idx as usize + 9_000_000) * 4;
+        let b = a + 1;
+        let kind = (cx.idx / 2) % 6;
+        let m: usize = match cx.idx % 8 {
+            0 | 4 => 256,
+            7 if cx.tier == Tier::Thorough => 131_072,
+            _ => 65_536,
+        };
+        let lang_b: &'static str = LANGS[((cx.idx + 5) % NL) as usize];
+        let words = ["metal", "mailbox", "shirt", "bear", "polar", "brown", "für", "ёлка"];
+        let mut hist: Vec<String> = vec![];
+        create_store(a, take_lang(lang));
+        create_store(b, take_lang(lang_b));
+        let mut ma = St::new(lang, DEFAULT_LIMIT, ("[", "]"));
+        let mut mb = St::new(lang_b, DEFAULT_LIMIT, ("[", "]"));
+        for k in 0..cx.rng.range(1, 4) {
+            let t = format!("{} {}", cx.rng.pick(&words), cx.rng.pick(&words));
+            add_record(a, k, &t, k);
+            ma.add(&(k, t.clone(), k));
+            add_record(b, k, &t, 9 - k);
+            mb.add(&(k, t, 9 - k));
+        }
+        let w = *cx.rng.pick(&words);
+        let q: String = if cx.rng.chance(1, 3) { w.chars().take(3).collect() } else { w.to_string() };
+        let qb = cx.rng.pick(&words).to_string();
+        run_search(a, &q);
+        run_search(b, &qb);
+        let last_b = mb.search(&qb);
+        hist.push(format!("create({}, {}) create({}, {}) a few adds, search({},{:?}) search({},{:?})", a, lang, b, lang_b, a, q, b, qb));
+        let lim = ma.store.limit;
+        let other_q = "zz";
+        let mut on_a = 0usize;
+        let mut total = 0usize;
+        // kinds: 0 set_limit(a, same) only | 1 a mix of no-op calls on a | 2 M-1 calls on a with calls on b in between
+        //        3 M-1 calls in all, on a and b alternately | 4 M-1 other searches on a | 5 M-1 reads of a's buffer
+        while (if kind == 3 { total } else { on_a }) < m - 1 {
+            match kind {
+                0 => {
+                    set_limit(a, lim);
+                    on_a += 1;
+                }
+                1 => {
+                    match total % 3 {
+                        0 => set_limit(a, lim),
+                        1 => highlight_with(a, ("[", "]")),
+                        _ => using_store(a, |_s| ()),
+                    }
+                    on_a += 1;
+                }
+                2 => {
+                    if total % 3 == 2 {
+                        set_limit(b, DEFAULT_LIMIT);
+                    } else {
+                        set_limit(a, lim);
+                        on_a += 1;
+                    }
+                }
+                3 => {
+                    if total % 2 == 0 {
+                        set_limit(a, lim);
+                        on_a += 1;
+                    } else {
+                        highlight_with(b, ("[", "]"));
+                    }
+                }
+                4 => {
+                    run_search(a, other_q);
+                    on_a += 1;
+                }
+                _ => {
+                    using_results(a, |r| r.len());
+                    on_a += 1;
+                }
+            }
+            total += 1;
+        }
+        hist.push(format!("{} calls that change nothing ({} of them on id {}; kind {})", total, on_a, a, kind));
+        // the one call that changes the answer: a record that the query finds
+        let t = format!("{} zzz", w);
+        add_record(a, 777, &t, 50);
+        ma.add(&(777, t.clone(), 50));
+        hist.push(format!("add({}, 777, {:?}, 50) search({},{:?})", a, t, a, q));
+        cx.ctx(format!("C20 session lang={} history={:?}", lang, hist));
+        run_search(a, &q);
+        let expect = ma.search(&q);
+        let got: Hits = using_results(a, |r| r.iter().map(|x| (x.id, x.title.clone())).collect());
+        let got_b: Hits = using_results(b, |r| r.iter().map(|x| (x.id, x.title.clone())).collect());
+        cx.eval();
+        cx.count("long registry sessions");
+        cx.count_n("calls in long registry sessions", total as u64);
+        if m >= 65_536 {
+            cx.count("long registry sessions of 2^16 calls or more between two equal searches");
+        }
+        if got != expect {
+            cx.fail("result-buffer-differs-from-model", json!({"lang": lang, "via_bridge": false, "history": hist, "id": a, "got": got, "expected": expect}));
+        } else if got_b != last_b {
+            cx.fail("result-buffer-differs-from-model", json!({"lang": lang_b, "via_bridge": false, "history": hist, "id": b, "got": got_b, "expected": last_b}));
+        }
+        destroy_store(a);
+        destroy_store(b);
+        if expect.len() >= 2 {
+            cx.key(hstr(&format!("session{}{}{}{:?}", lang, kind, m, q)));
+        }
+    }
+
     fn registry_case(&self, cx: &mut Cx, lang: &'static str, via_bridge: bool) {
         // usually three ids; sometimes up to twenty; ids spaced so that they collide modulo small table sizes
         let nids = match cx.rng.below(20) {
@@ -930,6 +1039,13 @@ impl History {
                         cx.ctx(format!("C20 lang={} history={:?}", lang, hist));
                         if via_bridge {
                             bridge::set_limit(id, lim);
+                        } else if cx.rng.chance(1, 4) {
+                            // the limit is a public field of the store the registry hands out
+                            if let Some(h) = hist.last_mut() {
+                                *h = format!("using_store({}, |s| s.limit = {})", id, lim);
+                            }
+                            using_store(id, |s| s.limit = lim);
+                            cx.count("limits written through using_store");
                         } else {
                             set_limit(id, lim);
                         }
@@ -1159,14 +1275,14 @@ impl Prop for History {
                 Stream::new("codepoints", 256, 256).asan(256),
             ],
             Which::NoStale => vec![Stream::new("random", 48000, 2400000).miri(12), Stream::new("exhaustive", NL * 81, NL * 81).miri(0), Stream::new("soak", 16, 64)],
-            Which::Registry => vec![Stream::new("core", 16000, 800000).miri(8), Stream::new("bridge", 4000, 200000).miri(4)],
+            Which::Registry => vec![Stream::new("core", 16000, 800000).miri(8), Stream::new("bridge", 4000, 200000).miri(4), Stream::new("session", 48, 480)],
         }
     }
     fn floors(&self) -> Vec<(&'static str, u64, u64)> {
         match self.0 {
             Which::NoCrash => vec![("searches", 20000, 200000), ("searches with hits", 5000, 50000), ("joined-record hits (two spans from a one-word query)", 50, 500), ("non-ASCII queries", 2000, 20000), ("limit 0", 200, 2000), ("limit 65536", 200, 2000), ("histories with boundary-value record ids", 2000, 20000), ("long-text searches", 500, 5000), ("long-text searches with a query over 255 characters", 100, 1000), ("corpus-store searches", 300, 3000), ("long-text cases with a giant word or a 1000+ word title", 20, 200), ("soak searches on one store", 600000, 2500000), ("most searches on one store max ", 66000, 66000), ("soak stores with more than 2^16 records", 2, 8), ("adds re-using the id of an earlier record", 5000, 50000), ("registry: searches", 10000, 300000), ("registry: searches with hits", 1500, 45000), ("registry: limit changes", 5000, 150000), ("registry: readers that call back into the registry", 1500, 45000), ("code points put through a store", 1000000, 1000000)],
             Which::NoStale => vec![("search after add following an earlier search", 2000, 20000), ("search after clear following an earlier search", 500, 5000), ("search after limit following an earlier search", 500, 5000), ("empty-query search after a mutation following an earlier search", 1000, 10000), ("exhaustive histories", 20000, 200000), ("histories on a crowded store", 2000, 20000), ("histories that clear and refill a crowded store", 2000, 20000), ("histories growing a store past 64/128/256/512 records with searches in between", 200, 5000), ("histories growing a store past 1024 records with searches in between", 60, 1500), ("soak searches on one store", 1000000, 4000000), ("search repeating the previous query after a mutation", 2000, 20000), ("operations on another store of the same thread inside a history", 3000, 30000), ("registry-driven searches compared with a fresh store", 5000, 50000), ("adds re-using the id of an earlier record", 3000, 30000), ("histories whose searches run on other threads than the adds (the store is moved there and back)", 1500, 15000), ("histories whose reference stores are built and searched on threads of their own", 3000, 30000), ("histories with a very long word next to a threshold match", 2000, 20000), ("histories with more than twenty fully tied records and a shrinking limit", 2000, 20000), ("histories with two lives of the same size ending in the same query", 2000, 20000), ("histories in which a text is followed by its own normalised spelling", 2000, 20000), ("histories with two long queries that share their first twenty letters", 1500, 15000)],
-            Which::Registry => vec![("observations", 20000, 200000), ("observations with >= 2 live ids holding results", 2000, 20000), ("destroy", 300, 3000), ("searches", 3000, 30000), ("histories over 4-20 store ids", 1000, 10000), ("bursts of 45-120 records", 300, 3000), ("stores created with another language than their neighbours", 3000, 30000), ("searches repeating the text just sent to another id", 2000, 20000), ("histories whose result buffers are read only now and then", 5000, 50000), ("reads that add a record from inside the reader", 5000, 50000), ("searches repeated on the same id after a limit change", 5000, 50000), ("stores emptied in place through using_store", 2000, 20000), ("histories whose model stores answer on threads of their own", 5000, 50000), ("searches repeating the text this id was sent last", 3000, 30000), ("ids destroyed and created again under another language, then sent the same text", 3000, 30000)],
+            Which::Registry => vec![("observations", 20000, 200000), ("observations with >= 2 live ids holding results", 2000, 20000), ("destroy", 300, 3000), ("searches", 3000, 30000), ("histories over 4-20 store ids", 1000, 10000), ("bursts of 45-120 records", 300, 3000), ("stores created with another language than their neighbours", 3000, 30000), ("searches repeating the text just sent to another id", 2000, 20000), ("histories whose result buffers are read only now and then", 5000, 50000), ("reads that add a record from inside the reader", 5000, 50000), ("searches repeated on the same id after a limit change", 5000, 50000), ("stores emptied in place through using_store", 2000, 20000), ("histories whose model stores answer on threads of their own", 5000, 50000), ("searches repeating the text this id was sent last", 3000, 30000), ("ids destroyed and created again under another language, then sent the same text", 3000, 30000), ("limits written through using_store", 500, 5000), ("long registry sessions", 48, 480), ("long registry sessions of 2^16 calls or more between two equal searches", 30, 300), ("calls in long registry sessions", 2000000, 20000000)],
         }
     }
     fn run(&self, cx: &mut Cx, stream: &str, idx: u64) {
@@ -1414,6 +1530,7 @@ impl Prop for History {
             }
             (Which::Registry, "core") => self.registry_case(cx, lang, false),
             (Which::Registry, "bridge") => self.registry_case(cx, lang, true),
+            (Which::Registry, "session") => self.registry_long_session(cx, lang),
             _ => {}
         }
     }
